@@ -18,6 +18,11 @@
 //!    words + three full /16 that contain /24 boundaries, mapped spellings of the same, all 2^16 leading IPv6
 //!    segments x 3 tails; thorough = ALL 2^32 IPv4 addresses, 2^26 mapped spellings, all 2^16 leading segments.
 //!
+//!  * space D (chains that START at an internal/special host; the first request is outside the property, every later
+//!    one is not): 24 internal/special start-host spellings + 2 public controls x 12 Location kinds (relative, same host
+//!    other port / scheme / userinfo, other internal hosts, public) x hop position 0..=10 with all earlier hops staying on
+//!    the current host.
+//!
 //! Oracle (from the property text): no request after the first goes to a host in a forbidden class (independent
 //! classifier `kit::net::host_class` + by-construction truth of the generated Location); at most 11 requests per
 //! call; allow_redirects=false => no request after the first; requests after the first carry none of
@@ -28,6 +33,8 @@
 //!   C27-drop-link-local.diff     (ipv4 link-local test removed)
 //!   C27-one-more-redirect.diff   (0..=MAX_REDIRECTS+1)
 //!   C27-forward-cookie.diff      (Cookie no longer stripped)
+//!   C27-same-host-skips-classification.diff (independently seeded: a redirect staying on the current host string is not
+//!                                            classified; missed before space D existed)
 
 use std::sync::{
     atomic::{AtomicU64, Ordering},
@@ -292,9 +299,13 @@ fn header_set(id: usize) -> (&'static str, Vec<(&'static str, &'static str)>, Ve
 }
 
 fn run_script(script: impl Fn(usize) -> Answer + Send + Sync + 'static, allow: bool, hset: usize, is_async: bool) -> Obs {
+    run_script_from(START, script, allow, hset, is_async)
+}
+
+fn run_script_from(start: &str, script: impl Fn(usize) -> Answer + Send + Sync + 'static, allow: bool, hset: usize, is_async: bool) -> Obs {
     let t = Transport::new(move |i, _| script(i));
     let (method, headers, body) = header_set(hset);
-    let req = net::request(method, START, &headers, body).unwrap_or_else(|| kit::ev::machinery("C27: start request not constructible"));
+    let req = net::request(method, start, &headers, body).unwrap_or_else(|| kit::ev::machinery("C27: start request not constructible"));
     let r = if is_async {
         let stack = hooks::redirect_resolver_async(t.clone(), allow);
         par::guard(|| net::block_on(stack.http_resolve_async(req)))
@@ -628,9 +639,134 @@ pub fn run(run: &Run, replay: Option<&Value>) {
         }
     }
 
+    // ---- space D: chains that START at an internal / special host -------------------------------
+    internal_start_space(run);
+
     // ---- space C: classifier sweep -------------------------------------------------------------
     classifier_sweep(run, thorough);
     CAP.report(run);
+}
+
+/// (authority host text, host with a different port, truth class) of the start hosts of space D.
+fn d_starts() -> Vec<(&'static str, Option<&'static str>)> {
+    vec![
+        ("127.0.0.1", Some("loopback")),
+        ("127.8.9.10", Some("loopback")),
+        ("10.0.0.1", Some("private")),
+        ("172.16.0.1", Some("private")),
+        ("192.168.1.1", Some("private")),
+        ("169.254.169.254", Some("link-local")),
+        ("100.64.0.1", Some("shared")),
+        ("0.0.0.0", Some("unspecified")),
+        ("192.0.2.1", Some("documentation")),
+        ("224.0.0.1", Some("multicast")),
+        ("255.255.255.255", Some("broadcast")),
+        ("localhost", Some("localhost")),
+        ("LOCALHOST", Some("localhost")),
+        ("x.localhost", Some("localhost")),
+        ("localhost.", Some("localhost")),
+        ("[::1]", Some("loopback")),
+        ("[::]", Some("unspecified")),
+        ("[::ffff:127.0.0.1]", Some("loopback")),
+        ("[::ffff:a9fe:a9fe]", Some("link-local")),
+        ("[fd00::1]", Some("unique-local")),
+        ("[fe80::1]", Some("link-local")),
+        ("[ff02::1]", Some("multicast")),
+        ("2130706433", Some("loopback")),
+        ("0x7f.1", Some("loopback")),
+        ("pub.example", None),
+        ("93.184.216.34", None),
+    ]
+}
+
+/// Location kinds of space D; `{H}` is the start host text.
+fn d_locations() -> Vec<(&'static str, &'static str, bool)> {
+    // (label, template, stays on the start host)
+    vec![
+        ("relative-path", "/r", true),
+        ("relative-segment", "r2/x?y#z", true),
+        ("relative-query", "?q=1", true),
+        ("same-host-other-port", "http://{H}:9999/x", true),
+        ("same-host-other-scheme", "https://{H}/x", true),
+        ("same-host-userinfo", "http://u:p@{H}:8080/x", true),
+        ("scheme-relative-same-host", "//{H}:8080/x", true),
+        ("other-internal-v4", "http://10.9.9.9/x", false),
+        ("other-internal-loopback", "http://127.0.0.2:8080/x", false),
+        ("other-internal-v6", "http://[::1]:8080/x", false),
+        ("other-internal-name", "http://localhost:8080/x", false),
+        ("public", "http://pub2.example/x", false),
+    ]
+}
+
+/// Space D: the first request is outside the property (a directly named internal host is fetched, documented), but no
+/// request AFTER it may go to a forbidden host - also not to the one the chain started at. For every start host of the
+/// internal/special alphabet (+ public controls) x every Location kind x every hop position p in 0..=10: hops before p
+/// are answered with a Location that stays on the current host (relative path), hop p with the Location, then 200.
+fn internal_start_space(run: &Run) {
+    let starts = d_starts();
+    let locs = d_locations();
+    let positions: Vec<usize> = (0..=10).collect();
+    let mut cases: Vec<(usize, usize, usize, bool)> = vec![];
+    for s in 0..starts.len() {
+        for l in 0..locs.len() {
+            for &p in &positions {
+                cases.push((s, l, p, false));
+                if p <= 1 {
+                    cases.push((s, l, p, true));
+                }
+            }
+        }
+    }
+    run.space("D: start host (24 internal/special spellings + 2 public controls) x 12 Location kinds (7 staying on the start host) x hop position 0..=10 (hops before it stay on the current host), sync; async at positions 0,1", cases.len() as u64, true);
+    let followed = AtomicU64::new(0);
+    let blocked = AtomicU64::new(0);
+    par::for_each(&cases, |(s, l, p, is_async)| {
+        let (host, truth) = starts[*s];
+        let (label, tmpl, same) = locs[*l];
+        let start = format!("http://{host}:8080/a/b?c=d");
+        let loc = tmpl.replace("{H}", host);
+        let (pos, loc2) = (*p, loc.clone());
+        let obs = run_script_from(
+            &start,
+            move |i| {
+                if i < pos {
+                    Answer::redirect(302, &format!("/stay{i}"))
+                } else if i == pos {
+                    Answer::redirect(307, &loc2)
+                } else {
+                    Answer::ok()
+                }
+            },
+            true,
+            0,
+            *is_async,
+        );
+        run.eval();
+        run.states(1);
+        run.transitions(obs.seen.len() as u64);
+        run.traces(1);
+        let case = json!({"space":"D","start":start,"location":loc,"pos":pos,"async":is_async});
+        // by construction: every hop before `pos` stays on the start host, hop `pos` does when the kind says so
+        judge(run, "D", true, &obs, &|k| if k <= pos || (k == pos + 1 && same) { truth } else { None }, &case);
+        if obs.seen.len() > 1 {
+            followed.fetch_add(1, Ordering::Relaxed);
+            run.nontrivial_n(1);
+        } else {
+            blocked.fetch_add(1, Ordering::Relaxed);
+            if truth.is_some() {
+                run.nontrivial_n(1);
+            }
+        }
+        if pos == 0 && !*is_async {
+            run.outcome(format!("D:{}:{label}:{}", if truth.is_some() { "internal-start" } else { "public-start" }, if obs.seen.len() > 1 { "followed".to_string() } else { obs.result.clone() }));
+        }
+    });
+    run.extra("spaceD", json!({"calls_with_a_followed_hop": followed.load(Ordering::Relaxed), "calls_stopped_at_the_first_hop": blocked.load(Ordering::Relaxed)}));
+    if run.violation_count() == 0 && (followed.load(Ordering::Relaxed) == 0 || blocked.load(Ordering::Relaxed) == 0) {
+        kit::ev::machinery("C27: space D is vacuous");
+    }
+    let o = run_script_from("http://127.0.0.1:8080/a", |i| if i == 0 { Answer::redirect(302, "/r") } else { Answer::ok() }, true, 0, false);
+    run.sample(json!({"space":"D","start":"http://127.0.0.1:8080/a","location":"/r","pos":0,"requests": o.seen.iter().map(|s| s.uri.clone()).collect::<Vec<_>>(), "result": o.result}));
 }
 
 fn classify(uri_text: &str) -> Option<bool> {
@@ -829,6 +965,21 @@ fn replay_case(run: &Run, c: &Value) {
             );
             println!("replay B {}: requests {:?} result {}", c["script"], obs.seen.iter().map(|s| (&s.uri, &s.headers)).collect::<Vec<_>>(), obs.result);
             judge(run, "B", allow, &obs, &|k| sc.iter().find(|d| d.0 + 1 == k).and_then(|d| d.2), c);
+        }
+        Some("D") => {
+            let start = c["start"].as_str().unwrap_or("").to_string();
+            let loc = c["location"].as_str().unwrap_or("").to_string();
+            let pos = c["pos"].as_u64().unwrap_or(0) as usize;
+            let l2 = loc.clone();
+            let obs = run_script_from(
+                &start,
+                move |i| if i < pos { Answer::redirect(302, &format!("/stay{i}")) } else if i == pos { Answer::redirect(307, &l2) } else { Answer::ok() },
+                true,
+                0,
+                c["async"].as_bool().unwrap_or(false),
+            );
+            println!("replay D start={start} location={loc} pos={pos}: requests {:?} result {}", obs.seen.iter().map(|s| &s.uri).collect::<Vec<_>>(), obs.result);
+            judge(run, "D", true, &obs, &|_| None, c);
         }
         Some("C") => {
             let u = c["uri"].as_str().unwrap_or("");
